@@ -38,6 +38,8 @@ def lit(v):
 def vref(name, v, neg=None):
     if neg == "wrongKind":
         return "%s BOOLEAN ::= TRUE" % name
+    if neg == "wrongKindStr":  # a string whose text is the very number: still not a number
+        return '%s UTF8String ::= "%d"' % (name, int(v))
     if neg == "negSize":
         return "%s INTEGER ::= -1" % name
     if isinstance(v, bool):
@@ -245,7 +247,7 @@ def run(v):
                      "SEQUENCE OF incl. extensible, DEFAULT values of kind integer / boolean / string) x EVERY subset of slots replaced by value "
                      "references x placement {same module, sibling by name, sibling by name+OID, sibling by OID with a same-named decoy module, rival importers, "
                      "sibling by OID next to a module whose OID is a strict prefix / extension of it} "
-                     "x EVERY load order, plus negative variants (reference missing, bound to a BOOLEAN, negative number as SIZE) per slot: %d "
+                     "x EVERY load order, plus negative variants (reference missing, bound to a BOOLEAN, bound to a string that spells the number, negative number as SIZE) per slot: %d "
                      "cases (one TLC state each). Expected: canonical model of the main module identical to the literal spelling, or a resolve "
                      "error for the negatives. Non-trivial = cases with at least one reference. Converter.tla: every history of %d steps "
                      "(load of a good / importing / unresolvable / malformed / missing file, generate) on the real file-level Converter: result "
